@@ -202,6 +202,7 @@ type explorer struct {
 	mu       sync.Mutex
 	total    [nKinds]*stats
 	nonrepro atomic.Int64
+	confirmed sync.Map // signature -> *atomic.Int64 occurrences
 	provWords [nProvs]atomic.Int64
 	capped   atomic.Bool
 }
@@ -351,9 +352,12 @@ func (e *explorer) changed(w *world, st *stats, executed []step, cur string) {
 	sig := w.sigPrefix() + ":" + last.Op + argClass(last) + ":" + effect
 	w.freshTree()
 	st.resets++
-	at, eff2 := replayWord(w, executed, nil)
-	w.freshTree()
-	st.resets++
+	at, eff2 := len(executed)-1, effect
+	if e.confirmations(sig) <= confirmPerSignature { // every signature is confirmed by replay on its first occurrences
+		at, eff2 = replayWord(w, executed, nil)
+		w.freshTree()
+		st.resets++
+	}
 	var names []string
 	for _, s := range executed {
 		names = append(names, s.String())
@@ -366,6 +370,13 @@ func (e *explorer) changed(w *world, st *stats, executed []step, cur string) {
 	}
 	st.outcomes["CHANGED:"+sig]++
 	e.run.Violation(sig, what, w.rcase(executed))
+}
+
+const confirmPerSignature = 16
+
+func (e *explorer) confirmations(sig string) int64 {
+	v, _ := e.confirmed.LoadOrStore(sig, new(atomic.Int64))
+	return v.(*atomic.Int64).Add(1)
 }
 
 // sigPrefix: mount kind, plus the configuration provenance when it is not the direct one.
@@ -628,7 +639,7 @@ func main() {
 		shards = append(shards, func() { e.rootShard(kind, rootFdOps(), true, false) })
 		shards = append(shards, func() { e.rootShard(kind, crossOps(paths), false, true) })
 		// configuration provenance: the same mount built in other, equivalent ways (quickPaths in both tiers)
-		for prov := 1; prov < nProvs; prov++ {
+		for prov := 1; prov < nProvs && kind <= kDualFS; prov++ { // provenances: the three standard kinds and dualfs
 			prov := prov
 			pr := rootPathOps(quickPaths)
 			for i := 0; i < len(pr); i += chunk {
